@@ -599,6 +599,17 @@ def do_grpc(results):
 
             if ss:
                 async def handler(self, arg):
+                    if cs and behaviour[pyname].get("pingpong"):
+                        # answer every request as soon as it arrives (an interactive conversation)
+                        seen = []
+                        calls.append((pyname, seen, []))
+                        i = 0
+                        async for r in arg:
+                            seen.append(bytes(r))
+                            rs = behaviour[pyname]["responses"]
+                            yield rs[i % len(rs)]
+                            i += 1
+                        return
                     reqs = await collect(arg)
                     calls.append((pyname, [bytes(r) for r in reqs], [type(r) for r in reqs]))
                     b = behaviour[pyname]
@@ -795,6 +806,58 @@ def do_grpc(results):
                             cardinality=me["card"])
                     except Exception as e:
                         add(sname, me["name"], "second-call-after-abandoned-call-gets-every-request", False, short_exc(e), cardinality=me["card"])
+
+                # ---- an interactive stream-stream conversation: the caller produces request n+1 only after it has seen
+                # response n, the handler answers each request as it arrives; every request must reach the handler when
+                # it is sent, not when the next one (or the end of the stream) is known
+                for me, sname_py, bname_py, tin, tout in plans:
+                    if not (me["cs"] and me["ss"]):
+                        continue
+                    try:
+                        from betterproto.grpc.util.async_channel import AsyncChannel
+                        pool_reqs = []
+                        for call in me["calls"]:
+                            for r in call["requests"]:
+                                try:
+                                    m = build(tin, r)
+                                except Exception:
+                                    continue
+                                if rt_ok(m):
+                                    pool_reqs.append(m)
+                        while len(pool_reqs) < 3:
+                            pool_reqs.append(tin())
+                        conv_reqs = pool_reqs[:3]
+                        behaviour[bname_py] = {"responses": [tout()], "pingpong": True}
+                        calls.clear()
+                        src = AsyncChannel()
+                        fn = getattr(stub, sname_py)
+                        got = []
+
+                        async def conversation():
+                            k = 1
+                            await src.send(conv_reqs[0])
+                            async for resp in fn(src):
+                                got.append(resp)
+                                if k < len(conv_reqs):
+                                    await src.send(conv_reqs[k])
+                                    k += 1
+                                else:
+                                    src.close()
+                        stalled = False
+                        try:
+                            await asyncio.wait_for(conversation(), 5)
+                        except asyncio.TimeoutError:
+                            stalled = True
+                        mine = [c for c in calls if c[0] == bname_py]
+                        ok = (not stalled) and len(got) == len(conv_reqs) and len(mine) == 1 and mine[0][1] == [bytes(r) for r in conv_reqs]
+                        add(sname, me["name"], "interactive-conversation", ok,
+                            "%s; %d responses for %d requests; handler saw %s" % ("STALLED (nothing arrived within 5 s)" if stalled else "finished",
+                                                                               len(got), len(conv_reqs), [[x.hex()[:20] for x in c[1]] for c in mine]),
+                            cardinality=me["card"])
+                    except Exception as e:
+                        add(sname, me["name"], "interactive-conversation", False, short_exc(e), cardinality=me["card"])
+                    finally:
+                        behaviour.pop(bname_py, None)
 
                 # ---- precedence of per-call timeout / deadline / metadata
                 if plans:
